@@ -3,8 +3,10 @@ pub mod c01;
 pub mod c03;
 pub mod c04;
 pub mod c06;
+pub mod c07;
 pub mod c08;
 pub mod c09;
+pub mod c10;
 pub mod c13;
 
 pub fn dispatch(prop: &str, run: &mut Run) {
@@ -13,8 +15,10 @@ pub fn dispatch(prop: &str, run: &mut Run) {
         "C03" => c03::run(run),
         "C04" => c04::run(run),
         "C06" => c06::run(run),
+        "C07" => c07::run(run),
         "C08" => c08::run(run),
         "C09" => c09::run(run),
+        "C10" => c10::run(run),
         "C13" => c13::run(run),
         _ => {
             eprintln!("unknown property {}", prop);
